@@ -34,6 +34,7 @@ type inliner struct {
 	remaining map[*types.Func]int // call sites that could not be inlined
 	counter   int
 	Inlined   []string
+	norm      *normaliser // purity oracle
 }
 
 // FuncInventory lists "pkgpath.Func" / "pkgpath.Type.Method" for all first-party declarations.
@@ -52,6 +53,7 @@ func (p *Program) FuncInventory() []string {
 func (p *Program) InlineNewHelpers(baseline *Baseline) {
 	for _, pkg := range p.All {
 		in := &inliner{prog: p, pkg: pkg, info: pkg.TypesInfo, cands: map[*types.Func]*ast.FuncDecl{}, remaining: map[*types.Func]int{}}
+		in.norm = &normaliser{p: p, pkg: pkg, info: pkg.TypesInfo, pure: map[*types.Func]int{}, in: in}
 		for _, fd := range p.AllFuncDeclsRaw(pkg) {
 			if baseline.HasFunc(pkg.PkgPath + "." + FuncName(fd)) {
 				continue
@@ -413,6 +415,18 @@ func (in *inliner) rewriteBody(fd *ast.FuncDecl) bool {
 	}
 	self, _ := in.info.Defs[fd.Name].(*types.Func)
 	changed := false
+	// pass 0: a helper called inside a larger expression is given a statement of its own
+	astutil.Apply(fd.Body, nil, func(c *astutil.Cursor) bool {
+		stmt, ok := c.Node().(ast.Stmt)
+		if !ok || c.Index() < 0 || stmtList(c.Parent()) == nil {
+			return true
+		}
+		if pre := in.hoistNested(stmt, self); pre != nil {
+			c.InsertBefore(pre)
+			changed = true
+		}
+		return true
+	})
 	// pass 1: statement-level
 	astutil.Apply(fd.Body, nil, func(c *astutil.Cursor) bool {
 		stmt, ok := c.Node().(ast.Stmt)
@@ -713,4 +727,160 @@ func (in *inliner) foldNilCheck(cont *ast.IfStmt, as *ast.AssignStmt, v types.Ob
 		return append([]ast.Stmt{as}, body.List...)
 	}
 	return generic()
+}
+
+// hoistNested finds the first call evaluated by stmt; when it is a call of a multi-statement
+// candidate nested in a larger expression, the call is replaced by a fresh variable and the
+// returned statement `v := helper(args)` is to be placed before stmt (evaluation order is kept:
+// nothing else of the statement has been called yet).
+func (in *inliner) hoistNested(stmt ast.Stmt, self *types.Func) ast.Stmt {
+	var slots []*ast.Expr
+	top := map[ast.Expr]bool{} // positions inlineStmt handles itself
+	switch s := stmt.(type) {
+	case *ast.ExprStmt:
+		slots = append(slots, &s.X)
+		top[s.X] = true
+	case *ast.AssignStmt:
+		for i := range s.Rhs {
+			slots = append(slots, &s.Rhs[i])
+		}
+		if len(s.Rhs) == 1 {
+			top[s.Rhs[0]] = true
+		}
+	case *ast.ReturnStmt:
+		for i := range s.Results {
+			slots = append(slots, &s.Results[i])
+		}
+		if len(s.Results) == 1 {
+			top[s.Results[0]] = true
+		}
+	case *ast.IfStmt:
+		if s.Init == nil {
+			slots = append(slots, &s.Cond)
+		}
+	case *ast.DeferStmt:
+		for i := range s.Call.Args {
+			slots = append(slots, &s.Call.Args[i])
+		}
+	case *ast.GoStmt:
+		for i := range s.Call.Args {
+			slots = append(slots, &s.Call.Args[i])
+		}
+	default:
+		return nil
+	}
+	// first real call in evaluation order, with the slot that holds it
+	var first *ast.CallExpr
+	var firstSlot *ast.Expr
+	var visit func(slot *ast.Expr) bool // true: stop
+	visit = func(slot *ast.Expr) bool {
+		switch x := (*slot).(type) {
+		case *ast.ParenExpr:
+			return visit(&x.X)
+		case *ast.FuncLit:
+			return false
+		case *ast.SelectorExpr:
+			return visit(&x.X)
+		case *ast.StarExpr:
+			return visit(&x.X)
+		case *ast.UnaryExpr:
+			return visit(&x.X)
+		case *ast.IndexExpr:
+			return visit(&x.X) || visit(&x.Index)
+		case *ast.SliceExpr:
+			if visit(&x.X) {
+				return true
+			}
+			for _, e := range []*ast.Expr{&x.Low, &x.High, &x.Max} {
+				if *e != nil && visit(e) {
+					return true
+				}
+			}
+			return false
+		case *ast.TypeAssertExpr:
+			return visit(&x.X)
+		case *ast.KeyValueExpr:
+			return visit(&x.Value)
+		case *ast.CompositeLit:
+			for i := range x.Elts {
+				if visit(&x.Elts[i]) {
+					return true
+				}
+			}
+			return false
+		case *ast.BinaryExpr:
+			if visit(&x.X) {
+				return true
+			}
+			if x.Op == token.LAND || x.Op == token.LOR {
+				// the right operand is evaluated conditionally: any call in it ends the search
+				found := false
+				ast.Inspect(x.Y, func(n ast.Node) bool {
+					if _, ok := n.(*ast.CallExpr); ok {
+						found = true
+					}
+					return !found
+				})
+				return found
+			}
+			return visit(&x.Y)
+		case *ast.CallExpr:
+			if visit(&x.Fun) {
+				return true
+			}
+			for i := range x.Args {
+				if visit(&x.Args[i]) {
+					return true
+				}
+			}
+			if tv, ok := in.info.Types[x.Fun]; ok && tv.IsType() {
+				return false
+			}
+			if id, ok := x.Fun.(*ast.Ident); ok {
+				if _, isB := in.info.Uses[id].(*types.Builtin); isB {
+					return false
+				}
+			}
+			// calls without effects commute with the helper: keep looking behind them
+			if _, hd, _ := in.calleeOf(x); hd == nil && in.norm != nil {
+				if f, ok := astx.Callee(in.info, x).(*types.Func); ok && in.norm.pureFunc(f) {
+					return false
+				}
+			}
+			first, firstSlot = x, slot
+			return true
+		}
+		return false
+	}
+	for _, slot := range slots {
+		if visit(slot) {
+			break
+		}
+	}
+	if first == nil || top[ast.Expr(first)] {
+		return nil
+	}
+	fn, hd, recv := in.calleeOf(first)
+	if hd == nil || fn == self {
+		return nil
+	}
+	if singleExpr(hd) != nil {
+		if _, prologue, ok := in.bindParams(hd, first, recv); ok && len(prologue) == 0 {
+			return nil // the expression-level pass handles it
+		}
+	}
+	sig := fn.Type().(*types.Signature)
+	if sig.Results().Len() != 1 {
+		return nil
+	}
+	in.counter++
+	name := fmt.Sprintf("_h%d", in.counter)
+	v := types.NewVar(first.Pos(), in.pkg.Types, name, sig.Results().At(0).Type())
+	def := &ast.Ident{Name: name, NamePos: first.Pos()}
+	use := &ast.Ident{Name: name, NamePos: first.Pos()}
+	in.info.Defs[def] = v
+	in.info.Uses[use] = v
+	in.info.Types[use] = types.TypeAndValue{Type: v.Type()}
+	*firstSlot = use
+	return &ast.AssignStmt{Lhs: []ast.Expr{def}, Tok: token.DEFINE, TokPos: first.Pos(), Rhs: []ast.Expr{first}}
 }
